@@ -1217,3 +1217,42 @@ def rule_nested_validated(ctx: Ctx, rep: Report, rule: str, module_prefixes: tup
             rep.ob(rule, f"{q}.{f}", called, av.where(), f"`{f}` ({sorted(names)[0]}) is validated" if called else
                    f"`{ci.name}.assert_valid` never validates its `{f}` ({sorted(names)[0]} has an assert_valid of its own): a nested object built with check_validity=False is taken on trust")
     rep.floor(rule, floor)
+
+
+def points_with_reduced_x(fn: ast.AST) -> list[ast.Tuple]:
+    """`(P[0] % <c>.n, P[1])`: a pair built from a point's coordinates with the x reduced modulo the group order."""
+    out = []
+    for t in own_nodes(fn):
+        if isinstance(t, ast.Tuple) and len(t.elts) == 2:
+            a, b = t.elts
+            if isinstance(a, ast.BinOp) and isinstance(a.op, ast.Mod) and str(norm(a.right)).endswith(".n") and isinstance(a.left, ast.Subscript) and isinstance(b, ast.Subscript) \
+                    and str(norm(a.left.value)) == str(norm(b.value)) and isinstance(a.left.slice, ast.Constant) and a.left.slice.value == 0 and isinstance(b.slice, ast.Constant) and b.slice.value == 1:
+                out.append(t)
+    return out
+
+
+_RX_SAMPLE = """
+def f(W, ec):
+    return W[0] % ec.n, W[1]
+"""
+
+
+def rule_point_coordinates_unreduced(ctx: Ctx, rep: Report, rule: str, module_prefixes: tuple[str, ...]) -> None:
+    """A point is a pair of field elements. Its x reduced modulo the *group order*
+    is a scalar (ECDSA's r), and a pair (x mod n, y) is not the point any more
+    -- for x >= n it is not on the curve at all: no function builds a pair from
+    a point's two coordinates with the x reduced mod n. Whoever compares an r
+    with a point's x reduces at the comparison."""
+    from sa.loader import _set_parents
+    sample = ast.parse(_RX_SAMPLE)
+    _set_parents(sample)
+    rep.ob(rule, "selftest:sample", len(points_with_reduced_x(sample.body[0])) == 1, "rules/sigcommon.py:1", "the detector fires on its own sample (expected count on the tree is zero)")
+    n = 0
+    for q, fi in sorted(ctx.prog.functions.items()):
+        if not any(q.startswith(p_) for p_ in module_prefixes):
+            continue
+        n += 1
+        for t in points_with_reduced_x(fi.node):
+            rep.ob(rule, f"{q}:{norm(t)[:40]}", False, fi.where(t), f"`{norm(t)}` is a point with its x reduced modulo the group order: another pair, generally off the curve")
+    rep.ob(rule, "scanned", True, "btclib:1", f"{n} functions in {module_prefixes}")
+    rep.floor(rule, 2)
